@@ -85,6 +85,24 @@ def refLevel2 [Add α] [Sub α] [Mul α] [OfNat α 0] (s : α) (h0a h0b h1a h1b 
    highsToOrientations s (alongW (coldfilt h0b h0a false) Hi) (alongW (coldfilt h1b h1a true) Lo)
      (alongW (coldfilt h1b h1a true) Hi))
 
+/-- level 1 with a band-pass diagonal filter `h2o` (six-filter `biort` sets such as `near_sym_b_bp`): the diagonal pair comes from
+`h2o` on columns and rows instead of `h1o` twice -/
+def refLevel1Rot [Add α] [Sub α] [Mul α] [OfNat α 0] (s : α) (h0o h1o h2o : List α) (x : Img α) : Img α × List (Cplx α) :=
+  let Lo := alongH (colfilter h0o) x
+  let Hi := alongH (colfilter h1o) x
+  let Ba := alongH (colfilter h2o) x
+  (alongW (colfilter h0o) Lo,
+   highsToOrientations s (alongW (colfilter h0o) Hi) (alongW (colfilter h1o) Lo) (alongW (colfilter h2o) Ba))
+
+/-- a level ≥ 2 with band-pass diagonal filters `h2a`, `h2b` (twelve-filter `qshift` sets such as `qshift_b_bp`) -/
+def refLevel2Rot [Add α] [Sub α] [Mul α] [OfNat α 0] (s : α) (h0a h0b h1a h1b h2a h2b : List α) (x : Img α) : Img α × List (Cplx α) :=
+  let Lo := alongH (coldfilt h0b h0a false) x
+  let Hi := alongH (coldfilt h1b h1a true) x
+  let Ba := alongH (coldfilt h2b h2a true) x
+  (alongW (coldfilt h0b h0a false) Lo,
+   highsToOrientations s (alongW (coldfilt h0b h0a false) Hi) (alongW (coldfilt h1b h1a true) Lo)
+     (alongW (coldfilt h2b h2a true) Ba))
+
 /-- levels 2 … : `n` more levels from the low-pass `low` -/
 def refLoop [Add α] [Sub α] [Mul α] [OfNat α 0] (s : α) (h0a h0b h1a h1b : List α) :
     Nat → Img α → Img α × List (List (Cplx α))
